@@ -163,3 +163,11 @@ ENTRIES += [
       "        with self._close_timer.with_timeout():\n            data = yield from \\\n                self.run_network_operation(\n                    self.reader.readline(),\n                    close_timeout=self._timeout,\n                    name='Readline')\n",
       "        data = yield from \\\n            self.run_network_operation(\n                self.reader.readline(),\n                close_timeout=self._timeout,\n                name='Readline')\n")]},
 ]
+
+PL = 'wpull/network/pool.py'
+ENTRIES += [
+    {'id': 'C08/eyeballs-close-primary', 'prop': 'C08', 'kind': 'break', 'expect': 'C08-D6', 'edits': [(PL,
+      "        if self._active_connection:\n            self._active_connection.close()\n", "        if self._active_connection:\n            self._primary_connection.close()\n")]},
+    {'id': 'C12/eyeballs-reset-secondary', 'prop': 'C12', 'kind': 'break', 'expect': 'C12-D7', 'edits': [(PL,
+      "        if self._active_connection:\n            self._active_connection.reset()\n", "        if self._active_connection:\n            self._secondary_connection.reset()\n")]},
+]
